@@ -47,6 +47,10 @@ type ConstTable struct {
 
 const staticDepth = 12
 
+// zeroValueSuffix ends the explanation of Static when the element asked for is
+// absent from a constant table, i.e. reads as the zero value.
+const zeroValueSuffix = " (zero value)"
+
 func (ev *Evaluator) with(info *types.Info) *Evaluator {
 	if info == ev.Info {
 		return ev
@@ -105,6 +109,25 @@ func (ev *Evaluator) static(v Val, depth int) (Val, string) {
 	info := v.Info
 	if tv, ok := info.Types[e]; ok && tv.Value != nil {
 		return Val{e, info}, ""
+	}
+	// a function value that names its code: a literal, a function, a method expression
+	switch f := e.(type) {
+	case *ast.FuncLit:
+		return Val{e, info}, ""
+	case *ast.Ident:
+		if _, isFunc := info.Uses[f].(*types.Func); isFunc {
+			return Val{e, info}, ""
+		}
+	case *ast.SelectorExpr:
+		if fn, isFunc := info.Uses[f.Sel].(*types.Func); isFunc {
+			if sig := fn.Type().(*types.Signature); sig.Recv() == nil {
+				return Val{e, info}, "" // pkg.Func
+			}
+			if tv, ok := info.Types[f.X]; ok && tv.IsType() {
+				return Val{e, info}, "" // T.Method
+			}
+			return Val{}, "method value " + types.ExprString(e) + " (its receiver is bound elsewhere)"
+		}
 	}
 	switch e := e.(type) {
 	case *ast.CompositeLit:
@@ -171,7 +194,7 @@ func (ev *Evaluator) static(v Val, depth int) (Val, string) {
 		if !ok || ic.V.Kind() != constant.Int {
 			return Val{}, "index " + types.ExprString(e.Index) + " is not a constant"
 		}
-		ct, why := ev.tableOfLit(base, nil, types.ExprString(e.X))
+		ct, why := ev.tableOfLitSparse(base, nil, types.ExprString(e.X), true)
 		if why != "" {
 			return Val{}, why
 		}
@@ -249,6 +272,13 @@ func structField(info *types.Info, lit *ast.CompositeLit, name string) (ast.Expr
 
 // tableOfLit lists the rows of an array / slice / map composite literal.
 func (ev *Evaluator) tableOfLit(v Val, tvar *types.Var, name string) (*ConstTable, string) {
+	return ev.tableOfLitSparse(v, tvar, name, false)
+}
+
+// tableOfLitSparse is tableOfLit; with sparse set, an array / slice literal
+// with keyed elements may leave gaps (only meaningful for indexing: an index
+// without row reads as the zero value).
+func (ev *Evaluator) tableOfLitSparse(v Val, tvar *types.Var, name string, sparse bool) (*ConstTable, string) {
 	lit, ok := v.E.(*ast.CompositeLit)
 	if !ok {
 		return nil, name + " is not a composite literal"
@@ -283,6 +313,9 @@ func (ev *Evaluator) tableOfLit(v Val, tvar *types.Var, name string) (*ConstTabl
 			row.Label = fmt.Sprintf("%s[%d]", name, next)
 			next++
 			ct.Rows = append(ct.Rows, row)
+		}
+		if sparse {
+			break
 		}
 		// rows must be dense and in index order, otherwise iteration visits zero rows
 		for i, r := range ct.Rows {
@@ -368,9 +401,25 @@ func (ev *Evaluator) StringOf(e ast.Expr) (string, bool) {
 type Unrolled struct {
 	Stmt  ast.Stmt
 	Table *ConstTable // nil for a counting loop without table in its header
-	Kind  string      // "array" | "map" | "count"
+	Kind  string      // "array" | "map" | "count" | "setbits" (a walk over the set bits of the word) | "producer" (a loop over what another decomposer of the word yields)
 	N     int
 	Why   string // non-empty: the loop could NOT be unrolled (reason)
+	// Blame: the reason in Why is a defect of the loop itself (its variable is
+	// altered in the body …) rather than a shape the analysis does not model.
+	Blame bool
+	// Skip: statements of the body that drive the loop (the step of a set-bit
+	// walk written inside the body) and are not part of what an iteration reports.
+	Skip map[ast.Stmt]bool
+	// Producer: the module function whose results the loop iterates (Kind
+	// "producer"), with its own decomposition.
+	Producer     *ast.FuncDecl
+	ProducerName string
+	Sub          *Decomp
+	// Descending: a walk over the set bits that starts at the highest one.
+	Descending bool
+	// WordInside: the flag word (under the bindings of the function the loop
+	// belongs to) occurs inside the loop.
+	WordInside bool
 }
 
 // iteration is one set of bindings of the loop variables.
@@ -378,6 +427,13 @@ type iteration struct {
 	env   map[types.Object]Sym
 	bind  map[types.Object]Val
 	label string
+	// test, when set, is the condition under which the iteration happens at all:
+	// the loop visits the set bits of the word (or what a decomposer reported for
+	// them), so the body runs for bit b exactly when `word & b != 0`.
+	test *MaskTest
+	// cut: the producer the loop ranges over ends ("return" / "break") when this
+	// iteration's bit is set, without reporting anything for it.
+	cut string
 }
 
 func identObj(info *types.Info, e ast.Expr) types.Object {
@@ -472,7 +528,7 @@ func (ev *Evaluator) unroll(s ast.Stmt) (*Unrolled, []iteration, *ast.BlockStmt)
 		valObj := identObj(info, s.Value)
 		for _, o := range []types.Object{keyObj, valObj} {
 			if o != nil && assigned(info, s.Body, o) {
-				u.Why = "the loop variable " + o.Name() + " is modified in the body"
+				u.Why, u.Blame = "the loop variable "+o.Name()+" is modified in the body", true
 				return u, nil, s.Body
 			}
 		}
@@ -498,16 +554,48 @@ func (ev *Evaluator) unroll(s ast.Stmt) (*Unrolled, []iteration, *ast.BlockStmt)
 		}
 		// slices.Sorted(maps.Keys(T)) / slices.Sorted(maps.Values(T)): the keys (values) of a
 		// constant map in a deterministic order
-		if call, ok := ast.Unparen(s.X).(*ast.CallExpr); ok && IsPkgFunc(StaticCallee(info, call), "slices", "Sorted") && len(call.Args) == 1 {
+		// the operand seen through a once-defined local or a package-level variable
+		// initialised by a call (`var sortedKeys = slices.Sorted(maps.Keys(T))`)
+		sx, sinfo := ast.Unparen(s.X), info
+		var holder *types.Var
+		{
+			var id *ast.Ident
+			switch x := sx.(type) {
+			case *ast.Ident:
+				id = x
+			case *ast.SelectorExpr:
+				if pid, ok := ast.Unparen(x.X).(*ast.Ident); ok {
+					if _, isPkg := info.Uses[pid].(*types.PkgName); isPkg {
+						id = x.Sel
+					}
+				}
+			}
+			if id != nil {
+				o := info.Uses[id]
+				if rhs, ok := ev.Defs[o]; ok {
+					if c, isCall := ast.Unparen(rhs).(*ast.CallExpr); isCall {
+						sx = c
+					}
+				} else if v, ok := o.(*types.Var); ok && !v.IsField() && v.Pkg() != nil && v.Parent() == v.Pkg().Scope() && ev.Vars != nil {
+					if init, vinfo := ev.Vars(v); init != nil && vinfo != nil {
+						if c, isCall := ast.Unparen(init).(*ast.CallExpr); isCall {
+							sx, sinfo, holder = c, vinfo, v
+						}
+					}
+				}
+			}
+		}
+		if call, ok := sx.(*ast.CallExpr); ok && IsPkgFunc(StaticCallee(sinfo, call), "slices", "Sorted") && len(call.Args) == 1 {
 			if inner, ok := ast.Unparen(call.Args[0]).(*ast.CallExpr); ok && len(inner.Args) == 1 {
-				fn := StaticCallee(info, inner)
+				fn := StaticCallee(sinfo, inner)
 				keys, vals := IsPkgFunc(fn, "maps", "Keys"), IsPkgFunc(fn, "maps", "Values")
 				if keys || vals {
-					ct, why := ev.Table(inner.Args[0])
+					ct, why := ev.with(sinfo).Table(inner.Args[0])
 					if why != "" || ct.Kind != "map" {
 						u.Why = "the sorted keys are not those of a constant map: " + why
 						return u, nil, s.Body
 					}
+					ev.noteTable(holder)
 					u.Table, u.Kind, u.N = ct, "array", len(ct.Rows)
 					var its []iteration
 					for _, row := range ct.Rows {
@@ -525,6 +613,72 @@ func (ev *Evaluator) unroll(s ast.Stmt) (*Unrolled, []iteration, *ast.BlockStmt)
 					return u, its, s.Body
 				}
 			}
+		}
+		// maps.Keys(T) / maps.Values(T) / maps.All(T) ranged directly, or collected
+		// into a slice first: the rows of T in map order (whether that order can
+		// reach the result is decided separately, like for a range over T itself)
+		{
+			seq, collected := sx, false
+			if call, ok := sx.(*ast.CallExpr); ok && len(call.Args) == 1 {
+				fun := call.Fun
+				if ix, ok := ast.Unparen(fun).(*ast.IndexExpr); ok {
+					fun = ix.X
+				}
+				if IsPkgFunc(StaticCallee(sinfo, &ast.CallExpr{Fun: fun}), "slices", "Collect") {
+					seq, collected = ast.Unparen(call.Args[0]), true
+				}
+			}
+			if m := mapOperand(sinfo, seq); m != nil {
+				inner := seq.(*ast.CallExpr)
+				fun := inner.Fun
+				if ix, ok := ast.Unparen(fun).(*ast.IndexExpr); ok {
+					fun = ix.X
+				}
+				which := StaticCallee(sinfo, &ast.CallExpr{Fun: fun}).Name()
+				ct, why := ev.with(sinfo).Table(m)
+				if why != "" || ct.Kind != "map" {
+					u.Why = "the iterated keys are not those of a constant map: " + why
+					return u, nil, s.Body
+				}
+				ev.noteTable(holder)
+				u.Table, u.Kind, u.N = ct, "map", len(ct.Rows)
+				var its []iteration
+				for _, row := range ct.Rows {
+					it := iteration{env: map[types.Object]Sym{}, bind: map[types.Object]Val{}, label: row.Label}
+					first := keyObj // the variable that receives the element of the sequence
+					if collected {
+						first = valObj // (keyObj is the position in the slice: uninterpreted)
+					}
+					switch which {
+					case "Keys":
+						if first != nil {
+							it.bind[first] = *row.Key
+						}
+					case "Values":
+						if first != nil {
+							it.bind[first] = row.Elem
+						}
+					case "All":
+						if collected {
+							u.Why = "maps.All collected into a slice"
+							return u, nil, s.Body
+						}
+						if keyObj != nil {
+							it.bind[keyObj] = *row.Key
+						}
+						if valObj != nil {
+							it.bind[valObj] = row.Elem
+						}
+					}
+					its = append(its, it)
+				}
+				return u, its, s.Body
+			}
+		}
+		// what another decomposer of the same word reports (a slice it returns, an
+		// iterator it yields to): one iteration per bit test of that function
+		if its, handled := ev.producerLoop(u, s.X, keyObj, valObj); handled {
+			return u, its, s.Body
 		}
 		ct, why := ev.Table(s.X)
 		if why != "" {
@@ -553,6 +707,10 @@ func (ev *Evaluator) unroll(s ast.Stmt) (*Unrolled, []iteration, *ast.BlockStmt)
 		return u, its, s.Body
 	case *ast.ForStmt:
 		u := &Unrolled{Stmt: s}
+		// A walk over the set bits of the flag word itself.
+		if its, handled := ev.bitWalk(u, s); handled {
+			return u, its, s.Body
+		}
 		// A loop driven by one integer variable with constant start, constant
 		// bound and a constant step (i++, i += k, m <<= 1, m = m << 1 …) is
 		// simulated: counting loops and bit walks alike.
@@ -631,7 +789,7 @@ func (ev *Evaluator) unroll(s ast.Stmt) (*Unrolled, []iteration, *ast.BlockStmt)
 			return u, nil, s.Body
 		}
 		if assigned(info, s.Body, vObj) {
-			u.Why = "the loop variable is modified in the body"
+			u.Why, u.Blame = "the loop variable is modified in the body", true
 			return u, nil, s.Body
 		}
 		// width of the variable: unsigned arithmetic wraps, signed overflow is not simulated
